@@ -1,41 +1,153 @@
 /-
-  `SwapStore` (swapstore.go): requests hold the read lock for their whole duration, `Swap` takes
-  the write lock, closes the old store and installs the new one.
+  `SwapStore` / `SwapWriteStore` (swapstore.go) at the granularity of their mutex operations.
+
+  A request (`GetChunk`, `HasChunk`, `String`, `SwapWriteStore.StoreChunk`, and also `Close`):
+
+      [want.r]  RLock  [rlocked: reads s.s]  member call: [entered] … [returned]  RUnlock  [runlocked]
+
+  `Swap(new)`:
+
+      [want.w]  Lock  [locked]  if the old store is writable and the new one is not: [refused] Unlock
+                                else  old.Close() [closed]   s.s = new [installed]   Unlock [unlocked]
+
+  The bracketed points are the hook sites of the `verif` build (verif_chain.go; the member's entry,
+  return and Close are observed in the member) and the events of this machine.  Stores are numbered
+  by epoch: the initial one is 0, every successful Swap installs `current + 1`.  `sync.RWMutex` by
+  contract, as in Model/Failover.lean: who holds what is read off the program counters; `wp` =
+  writer preference.
+
+  `Close()` closes the *current* store under the read lock and leaves it installed: it is the
+  caller's business not to use the wrapper afterwards (`closedUser`); `closedSwap` are the stores
+  closed by `Swap`.  `StoreChunk` asserts `s.s.(WriteStore)`: on a store that is not writable this
+  panics (the deferred RUnlock still runs).
 -/
 namespace Desync.Swap
 
+inductive Op
+  | get | has | str | store | close
+  deriving DecidableEq, Repr
+
+/-- what a caller does: one request, or one `Swap` to a fresh store that is / is not a `WriteStore` -/
+inductive Role
+  | req (op : Op)
+  | swap (writable : Bool)
+  deriving DecidableEq, Repr
+
 inductive PC
   | idle
-  | inReq (epoch : Nat)     -- holds the read lock, request running on the store of this epoch
-  | done (epoch : Nat)
+  | wantR                 -- announced RLock
+  | holdR (e : Nat)       -- holds the read lock, has read the store of epoch `e`
+  | inCall (e : Nat)      -- member call on store `e` in flight (read lock held)
+  | retd (e : Nat)        -- member call returned (read lock still held)
+  | done (e : Nat)        -- read lock released: the request has returned
+  | panicked (e : Nat)    -- `s.s.(WriteStore)` failed: panic (read lock released by the deferred call)
+  | wantW                 -- Swap: announced Lock
+  | holdW                 -- Swap: holds the write lock
+  | closedOld             -- Swap: has closed the old store
+  | installed             -- Swap: has installed the new store
+  | refusing              -- Swap: writable → not writable is refused, lock still held
+  | swapped               -- Swap returned nil
+  | refused               -- Swap returned the error
   deriving DecidableEq, Repr
+
+def PC.isReader : PC → Bool
+  | .holdR _ => true
+  | .inCall _ => true
+  | .retd _ => true
+  | _ => false
+
+def PC.isWriter : PC → Bool
+  | .holdW => true
+  | .closedOld => true
+  | .installed => true
+  | .refusing => true
+  | _ => false
+
+def PC.isPendingW : PC → Bool
+  | .wantW => true
+  | _ => false
 
 structure St where
   current : Nat := 0            -- epoch of the installed store
-  closed : List Nat := []       -- epochs whose store has been closed
-  readers : Nat := 0            -- read-lock holders
+  curW : Bool                   -- the installed store is a WriteStore
+  closedSwap : List Nat := []   -- epochs whose store has been closed by Swap
+  closedUser : List Nat := []   -- epochs whose store has been closed through the wrapper's Close
+  wp : Bool := true
+  roles : List Role
   callers : List PC
-  swaps : Nat := 0
   deriving Repr
 
-def St.init (k : Nat) : St := { callers := List.replicate k .idle }
+def St.init (curW wp : Bool) (roles : List Role) : St :=
+  { curW, wp, roles, callers := List.replicate roles.length .idle }
 
 inductive Ev
-  | enter (t : Nat)     -- RLock + read s.s
-  | leave (t : Nat)     -- request finished, RUnlock
-  | swap                -- Lock; close old; install new; Unlock (needs no reader)
+  | wantR (t : Nat)
+  | rlock (t : Nat) (e : Nat)      -- RLock acquired, `s.s` read: the store of epoch `e`
+  | enter (t : Nat) (e : Nat)      -- the member call is entered on store `e`
+  | exit (t : Nat) (e : Nat)       -- … and returns
+  | closeU (t : Nat) (e : Nat)     -- `Close()`: store `e` is closed
+  | runlock (t : Nat)
+  | wantW (t : Nat)
+  | lock (t : Nat)
+  | refuse (t : Nat)
+  | closeOld (t : Nat) (e : Nat)   -- Swap closes the old store `e`
+  | install (t : Nat)
+  | unlock (t : Nat)
   deriving Repr
 
+def setC (s : St) (t : Nat) (pc : PC) : St := { s with callers := s.callers.set t pc }
+
+def rlockFree (s : St) : Bool := s.callers.all fun pc => !(pc.isWriter || (s.wp && pc.isPendingW))
+
+def lockFree (s : St) : Bool := s.callers.all fun pc => !(pc.isReader || pc.isWriter)
+
+/-- `oldWritable && !newWritable` -/
+def refuses (s : St) (w : Bool) : Bool := s.curW && !w
+
 def step (s : St) : Ev → Option St
-  | .enter t => match s.callers[t]? with
-    | some .idle => some { s with callers := s.callers.set t (.inReq s.current), readers := s.readers + 1 }
+  | .wantR t => match s.callers[t]?, s.roles[t]? with
+    | some .idle, some (.req _) => some (setC s t .wantR)
+    | _, _ => none
+  | .rlock t e => match s.callers[t]? with
+    | some .wantR => if rlockFree s ∧ e = s.current then some (setC s t (.holdR e)) else none
     | _ => none
-  | .leave t => match s.callers[t]? with
-    | some (.inReq e) => some { s with callers := s.callers.set t (.done e), readers := s.readers - 1 }
+  | .enter t e' => match s.callers[t]?, s.roles[t]? with
+    | some (.holdR e), some (.req op) =>
+      if e' = e ∧ op ≠ .close ∧ (op = .store → s.curW = true) then some (setC s t (.inCall e)) else none
+    | _, _ => none
+  | .exit t e' => match s.callers[t]? with
+    | some (.inCall e) => if e' = e then some (setC s t (.retd e)) else none
     | _ => none
-  | .swap =>
-    if s.readers = 0 then some { s with closed := s.current :: s.closed, current := s.current + 1, swaps := s.swaps + 1 }
-    else none
+  | .closeU t e' => match s.callers[t]?, s.roles[t]? with
+    | some (.holdR e), some (.req .close) =>
+      if e' = e then some { setC s t (.retd e) with closedUser := e :: s.closedUser } else none
+    | _, _ => none
+  | .runlock t => match s.callers[t]?, s.roles[t]? with
+    | some (.retd e), _ => some (setC s t (.done e))
+    | some (.holdR e), some (.req .store) => if s.curW = true then none else some (setC s t (.panicked e))
+    | _, _ => none
+  | .wantW t => match s.callers[t]?, s.roles[t]? with
+    | some .idle, some (.swap _) => some (setC s t .wantW)
+    | _, _ => none
+  | .lock t => match s.callers[t]? with
+    | some .wantW => if lockFree s then some (setC s t .holdW) else none
+    | _ => none
+  | .refuse t => match s.callers[t]?, s.roles[t]? with
+    | some .holdW, some (.swap w) => if refuses s w then some (setC s t .refusing) else none
+    | _, _ => none
+  | .closeOld t e => match s.callers[t]?, s.roles[t]? with
+    | some .holdW, some (.swap w) =>
+      if refuses s w = false ∧ e = s.current then
+        some { setC s t .closedOld with closedSwap := s.current :: s.closedSwap }
+      else none
+    | _, _ => none
+  | .install t => match s.callers[t]?, s.roles[t]? with
+    | some .closedOld, some (.swap w) => some { setC s t .installed with current := s.current + 1, curW := w }
+    | _, _ => none
+  | .unlock t => match s.callers[t]? with
+    | some .installed => some (setC s t .swapped)
+    | some .refusing => some (setC s t .refused)
+    | _ => none
 
 inductive Reachable (s0 : St) : St → Prop
   | refl : Reachable s0 s0
